@@ -22,10 +22,11 @@ spec/P2P.tla   one peer session of client/network: the wire grammar of every com
 import json, os, re, collections, random
 from vf import Infra
 
-DEFECTS = ["VersionAgentLen", "CmpctSameSid", "InvCountWrap", "BlockTxCount", "CmpctTxSize", "GetBlockTxnIdx",
+DEFECTS = ["VersionAgentLen", "CmpctSameSid", "CmpctPrefilledIdx", "InvCountWrap", "BlockTxCount", "CmpctTxSize", "GetBlockTxnIdx",
            "BlockTxnMissing", "EncFlagNoKey", "TeardownLockOrder"]
+ORPH = dict(MAXPRE=1, MAXPOST=4, CMDS='"version","txo1","txo2","cmpctblock4","sendcmpct"', KINDS='"valid"')
 INIT = {"alive": True, "ver": False, "cmpct": 0, "auth": "no", "addrd": False, "ahr": False, "bip": False,
-        "h1": "no", "h2": False, "mp": False}
+        "h1": "no", "h2": False, "mp": False, "o1": False, "o2": False}
 
 
 def workers():
@@ -46,7 +47,8 @@ def project(st):
         return None
     return {"alive": st["alive"], "ver": st["ver"], "cmpct": st["cmpct"],
             "auth": "ok" if st["authd"] else ("got" if st["auth"] else "no"),
-            "addrd": st["addrd"], "ahr": st["ahr"], "bip": st["bip"], "h1": st["h1"], "h2": st["h2"], "mp": st["mp"]}
+            "addrd": st["addrd"], "ahr": st["ahr"], "bip": st["bip"], "h1": st["h1"], "h2": st["h2"], "mp": st["mp"],
+            "o1": st.get("o1", False), "o2": st.get("o2", False)}
 
 
 def frozen(d):
@@ -257,8 +259,9 @@ def run(ctx):
     states += r.distinct
     transitions += r.generated
     refuted = []
-    for d in (DEFECTS[:2] if quick else DEFECTS):
-        mc(ctx, dict(DEFECTS='"%s"' % d), d, expect="LockOrder" if d == "TeardownLockOrder" else "HandlerReturnsClean")
+    for d in (DEFECTS[:3] if quick else DEFECTS):
+        dd = dict(ORPH, DEFECTS='"%s"' % d) if d == "CmpctSameSid" else dict(DEFECTS='"%s"' % d)   # (that one needs three messages)
+        mc(ctx, dd, d, expect="LockOrder" if d == "TeardownLockOrder" else "HandlerReturnsClean")
         refuted.append(d)
     ctx.cov["refuted_variants"] = refuted
 
@@ -277,9 +280,12 @@ def run(ctx):
         bad = [c for c in spec_gram if spec_gram.get(c) != h_gram.get(c)]
         raise Infra("grammars differ for %s: spec %s harness %s" % (bad[:3], spec_gram.get(bad[0]), h_gram.get(bad[0])))
     _, blines = export(ctx, "P2P_genban", dict(MAXPRE=11, MAXPOST=3, CMDS='"ping","version","getaddr","blocktxn"', KINDS='"valid"'), "ban")
+    _, olines = export(ctx, "P2P_genorph", ORPH, "orphans")
     sessions = sessions_of(lines, 1)
     sessions += sessions_of(blines, len(sessions) + 1)
-    cap = 10000 if quick else 60000
+    have = set(tuple(ckey(m) for m in s["msgs"]) for s in sessions)
+    sessions += [s for s in sessions_of(olines, len(sessions) + 1) if tuple(ckey(m) for m in s["msgs"]) not in have]
+    cap = 12500 if quick else 60000
     ctx.cov["sessions_exported"] = len(sessions)
     if len(sessions) > cap:
         rnd = random.Random(ctx.seed)
@@ -288,7 +294,7 @@ def run(ctx):
         rnd.shuffle(rest)
         sessions = keep + rest[:max(0, cap - len(keep))]
         ctx.cov["sampled"] = True
-    ctx.log("%d exported transitions -> %d sessions (of %d) over %d payload classes" % (len(lines) + len(blines), len(sessions), ctx.cov["sessions_exported"], len(spec_alpha)))
+    ctx.log("%d exported transitions -> %d sessions (of %d) over %d payload classes" % (len(lines) + len(blines) + len(olines), len(sessions), ctx.cov["sessions_exported"], len(spec_alpha)))
 
     # ---- 3. replay on the real node
     res = replay(ctx, binp, sessions, "main")
